@@ -562,7 +562,7 @@ End Sim2.
 Lemma refine_run_values : forall U ports, (length U <= 32)%nat ->
   forall evs w al pend tg tr fin,
   Inv U ports w pend tg -> Rel2 w al -> Forall (ev_ok U) evs -> Forall (evok ports) evs ->
-  run ports w evs = (tr, fin) -> quiescent_from pend tg evs tr = true ->
+  run ports w evs = (tr, fin) -> nocross_from pend tg evs tr = true ->
   tr = arun ports al evs.
 Proof.
   intros U ports US. induction evs as [| e es IH]; intros w al pend tg tr fin HI HR E1 E2 Hr Hq.
@@ -571,7 +571,7 @@ Proof.
     destruct (Inv_step U ports w pend tg e US HI H1 H3) as [w' [o [S Nx]]].
     cbn [run] in Hr. rewrite S in Hr. destruct (run ports w' es) as [tr' fin'] eqn:R.
     inversion Hr; subst tr fin; clear Hr.
-    rewrite quiescent_from_step in Hq.
+    rewrite nocross_from_step in Hq.
     destruct (qstep pend tg e o) as [[p' tg'] |] eqn:Q; [| discriminate].
     destruct (Rel2_step U US ports w al pend tg e w' o HR HI H1 H3 S) as [Eo HR'].
     cbn [arun]. destruct (astep ports al e) as [al' o'] eqn:A. cbn [fst snd] in Eo, HR'.
@@ -579,11 +579,11 @@ Proof.
     apply (IH w' al' p' tg' tr' fin' (Nx _ _ eq_refl) HR' H2 H4 R Hq).
 Qed.
 
-(* Every quiescent history: the model's records - parameter messages with
+(* Every nocross history: the model's records - parameter messages with
    their values included - are exactly the abstract specification's. *)
-Theorem refine_quiescent_values : forall ports evs tr fin U,
+Theorem refine_nocross_values : forall ports evs tr fin U,
   (length U <= 32)%nat -> incl (ccids evs) U -> Forall (evok ports) evs ->
-  run ports world0 evs = (tr, fin) -> quiescent evs tr = true ->
+  run ports world0 evs = (tr, fin) -> nocross evs tr = true ->
   tr = arun ports astate0 evs.
 Proof.
   intros ports evs tr fin U US Hi He Hr Hq.
